@@ -112,6 +112,7 @@ def FsOp.keepsTmp1 : FsOp → Bool
   | .write f _ => f ≠ .tmp1
   | .close _ => true
   | .rename s d => d ≠ .tmp1 ∧ s ≠ .tmp1
+  | .remove f => f ≠ .tmp1
 
 theorem FS.apply_keepsTmp1 (fs : FS) (op : FsOp) (h : op.keepsTmp1 = true) : (fs.apply op).tmp1 = fs.tmp1 := by
   cases op with
@@ -121,6 +122,7 @@ theorem FS.apply_keepsTmp1 (fs : FS) (op : FsOp) (h : op.keepsTmp1 = true) : (fs
   | close f => rfl
   | rename s d =>
     cases s <;> cases d <;> simp_all [FsOp.keepsTmp1, FS.apply, FS.set, FS.get] <;> split <;> simp_all
+  | remove f => cases f <;> simp_all [FsOp.keepsTmp1, FS.apply, FS.set]
 
 theorem serializeOps_keepsTmp1 (pieces : List Bytes) (fail : Bool) : ∀ op ∈ serializeOps pieces fail, op.keepsTmp1 = true := by
   intro op h
@@ -351,17 +353,26 @@ structure Inv (l : Link) : Prop where
 
 theorem set_child (s : Ser) (c : Option Chunk) :
     (s.setTransmissionData c).1.child = s.child ∨ (s.setTransmissionData c).1.child = none := by
+  left
   unfold Ser.setTransmissionData
   cases c with
   | none => simp
-  | some c =>
-    simp only
-    split
-    · simp
-    · simp only
-      split
-      · right; rfl
-      · left; rfl
+  | some c => simp only; split <;> simp
+
+theorem finish_child (s : Ser) (a : Bool) :
+    (s.finishIncoming a).1.child = s.child ∨ (s.finishIncoming a).1.child = none := by
+  unfold Ser.finishIncoming
+  by_cases h : s.incSnap = true
+  · simp only [h, Bool.not_true, Bool.false_eq_true, if_false]
+    by_cases hs : (a && s.mode == .file && s.fork && s.pid == .child) = true
+    · right; simp [hs]
+    · left; simp [hs]
+  · left; simp [h]
+
+theorem finish_frame (s : Ser) (a : Bool) :
+    (s.finishIncoming a).1.batch = s.batch ∧ (s.finishIncoming a).1.trans = s.trans := by
+  unfold Ser.finishIncoming
+  by_cases h : s.incSnap = true <;> simp [h]
 
 theorem Inv_init (sm rm : Mode) (sf rf : Bool) (sb rb : Nat) (h : 1 ≤ sb) : Inv (Link.init sm rm sf rf sb rb) := by
   refine ⟨⟨none, trivial, ⟨h, ?_, ?_⟩⟩, ?_, ?_⟩
@@ -384,7 +395,7 @@ theorem noteHeld_inv (l : Link) (g : RG) (hr : RGood l.held l.rcv g) (hb : 1 ≤
     subst h'
     exact List.mem_cons_self ..
 
-theorem deliver_inv (l : Link) (h : Inv l) : Inv (l.step .deliver) := by
+theorem deliver_inv (l : Link) (fin : Option Bool) (h : Inv l) : Inv (l.step (.deliver fin)) := by
   obtain ⟨⟨g, hr, hsc⟩, hchild, hcomp⟩ := h
   unfold Link.step
   cases hchan : l.chan with
@@ -407,7 +418,7 @@ theorem deliver_inv (l : Link) (h : Inv l) : Inv (l.step .deliver) := by
       have hset := set_chunkAt l.rcv l.snd.batch hsc.batch D o hpre
       simp only at hset
       rw [← hch] at hset
-      obtain ⟨hret, _, hcase⟩ := hset
+      obtain ⟨hret, _, _, hcase⟩ := hset
       have hchild' : (l.rcv.setTransmissionData (some ch)).1.childOk := by
         intro c hc
         rcases set_child l.rcv (some ch) with h | h
@@ -417,31 +428,36 @@ theorem deliver_inv (l : Link) (h : Inv l) : Inv (l.step .deliver) := by
       · simp only [hl, if_true] at hcase
         have hng : nextG l.snd.batch D o = none := by simp [nextG, ← hch, hl]
         rw [hng] at hrest
-        refine ⟨⟨none, trivial, ⟨hsc.batch, hsc.dumpHeld, hrest⟩⟩, hchild', ?_⟩
         simp only [hret, hl, if_true, hcase.1]
-        intro d hd
-        rcases List.mem_cons.mp hd with hd | hd
-        · subst hd; exact hD
-        · exact hcomp d hd
+        refine ⟨⟨none, trivial, ⟨hsc.batch, hsc.dumpHeld, hrest⟩⟩, ?_, ?_⟩
+        · cases fin with
+          | none => exact hchild'
+          | some a =>
+            intro c hc
+            rcases finish_child (l.rcv.setTransmissionData (some ch)).1 a with h | h
+            · rw [h] at hc; exact hchild' c hc
+            · rw [h] at hc; cases hc
+        · intro d hd
+          rcases List.mem_cons.mp hd with hd | hd
+          · subst hd; exact hD
+          · exact hcomp d hd
       · simp only [hl] at hcase
         simp only [Bool.false_eq_true, if_false] at hcase
         have hng : nextG l.snd.batch D o = some (D, o + ch.data.length) := by simp [nextG, ← hch, hl]
         rw [hng] at hrest
         have hr' : RGood l.held (l.rcv.setTransmissionData (some ch)).1 (some (D, o + ch.data.length)) := by
-          rcases hcase.2.1 with h0 | h1
+          rcases hcase.1 with h0 | h1
           · omega
           · exact ⟨hD, h1⟩
-        refine ⟨⟨_, hr', ⟨hsc.batch, hsc.dumpHeld, hrest⟩⟩, hchild', ?_⟩
         simp only [hret, hl]
-        exact hcomp
-
+        exact ⟨⟨_, hr', ⟨hsc.batch, hsc.dumpHeld, hrest⟩⟩, hchild', hcomp⟩
 
 theorem restart_childOk (s : Ser) : s.restart.childOk := by
   intro c hc; simp [Ser.restart] at hc
 
 theorem step_inv (l : Link) (e : Ev) (he : e.repaired = true) (h : Inv l) : Inv (l.step e) := by
   cases e with
-  | deliver => exact deliver_inv l h
+  | deliver fin => exact deliver_inv l fin h
   | send =>
     obtain ⟨⟨g, hr, hsc⟩, hchild, hcomp⟩ := h
     exact ⟨⟨g, hr, SC_send hsc⟩, hchild, hcomp⟩
@@ -496,9 +512,10 @@ theorem step_inv (l : Link) (e : Ev) (he : e.repaired = true) (h : Inv l) : Inv 
   | sndInstall d =>
     obtain ⟨⟨g, hr, hsc⟩, hchild, hcomp⟩ := h
     have hf := feed_frame l.snd [some ⟨d, true, false⟩, some ⟨[], false, true⟩]
-    apply noteHeld_inv { l with snd := (l.snd.feed [some ⟨d, true, false⟩, some ⟨[], false, true⟩]).1 } g hr
-    · simp only [hf.1]; exact hsc.batch
-    · simp only [hf.1, hf.2]; exact hsc.linked
+    have hf2 := finish_frame (l.snd.feed [some ⟨d, true, false⟩, some ⟨[], false, true⟩]).1 true
+    apply noteHeld_inv { l with snd := ((l.snd.feed [some ⟨d, true, false⟩, some ⟨[], false, true⟩]).1.finishIncoming true).1 } g hr
+    · simp only [hf2.1, hf.1]; exact hsc.batch
+    · simp only [hf2.1, hf2.2, hf.1, hf.2]; exact hsc.linked
     · exact hchild
     · exact hcomp
   | rcvSerialize id pieces fail =>
@@ -750,8 +767,8 @@ namespace PSO.Serializer
 -- D66: whenever the own dump child was started, a completed install leaves none behind
 -- ------------------------------------------------------------------------------------------------
 
-/-- what a follower does between the start of its own dump and the end of an incoming transfer: it receives messages
-(`some m`) and its fork child performs primitive operations (`none`), in any order -/
+/-- what a follower does between the start of its own dump and the install of an incoming snapshot: it receives
+messages (`some m`) and its fork child performs primitive operations (`none`), in any order -/
 def Ser.mix (s : Ser) : List (Option (Option Chunk)) → Ser
   | [] => s
   | none :: rest => Ser.mix s.childStep rest
@@ -770,12 +787,7 @@ theorem forkWF_set (s : Ser) (m : Option Chunk) (h : s.forkWF) : (s.setTransmiss
     simp only
     split
     · exact ⟨hm, hf, hp⟩
-    · refine ⟨hm, hf, ?_⟩
-      rcases hp with ⟨h1, h2⟩ | h1
-      · left; simp [h1, h2]
-      · by_cases hl : c.isLast = true
-        · left; simp [hl, hm, hf, h1]
-        · right; simp [hl, h1]
+    · exact ⟨hm, hf, hp⟩
 
 theorem forkWF_childStep (s : Ser) (h : s.forkWF) : s.childStep.forkWF := by
   obtain ⟨hm, hf, hp⟩ := h
@@ -820,16 +832,112 @@ theorem forkWF_serialize (s : Ser) (id : Nat) (pieces : List Bytes) (fail : Bool
   · have : (s.serialize id pieces fail).1 = s := by simp [Ser.serialize, hidle]
     rw [this]; exact ⟨hm, hf, hp⟩
 
-/-- a completing `setTransmissionData` on a well-formed fork-mode serializer leaves no child and pid idle -/
-theorem forkWF_install (s : Ser) (c : Chunk) (h : s.forkWF) (hacc : c.isFirst = true ∨ s.incOpen = true)
-    (hl : c.isLast = true) :
-    (s.setTransmissionData (some c)).2 = true ∧ (s.setTransmissionData (some c)).1.child = none ∧
-    (s.setTransmissionData (some c)).1.pid = .idle := by
+/-- `finishIncoming(True)` with a received snapshot at hand on a well-formed fork-mode serializer leaves no child and
+pid idle; mode and fork flag are unchanged -/
+theorem forkWF_finish (s : Ser) (h : s.forkWF) (hs : s.incSnap = true) :
+    (s.finishIncoming true).1.child = none ∧ (s.finishIncoming true).1.pid = .idle ∧
+    (s.finishIncoming true).1.mode = .file ∧ (s.finishIncoming true).1.fork = true := by
   obtain ⟨hm, hf, hp⟩ := h
-  have hn : ¬ ((!c.isFirst && !s.incOpen) = true) := by
-    rcases hacc with h | h <;> simp [h]
   rcases hp with ⟨h1, h2⟩ | h1
-  · simp [Ser.setTransmissionData, hn, hl, h1, h2]
-  · simp [Ser.setTransmissionData, hn, hl, hm, hf, h1]
+  · simp [Ser.finishIncoming, hs, h1, h2, hm, hf]
+  · simp [Ser.finishIncoming, hs, hm, hf, h1]
+
+end PSO.Serializer
+
+namespace PSO.Serializer
+
+-- ------------------------------------------------------------------------------------------------
+-- D70: the follower's stored snapshot changes only through its own dump or an accepted install
+-- ------------------------------------------------------------------------------------------------
+
+/-- the only events that may change the follower's stored snapshot: its own dump (`serialize` in memory / inline
+mode, the rename by its fork child), a process restart (memory mode keeps nothing), and a delivery whose
+`__loadDumpFile` decides to install (`finishIncoming(True)`) -/
+def Ev.mayStore : Ev → Bool
+  | .rcvSerialize .. => true
+  | .rcvChildStep => true
+  | .rcvRestart _ => true
+  | .deliver (some true) => true
+  | _ => false
+
+theorem noteHeld_rcv (l : Link) : l.noteHeld.rcv = l.rcv := by
+  unfold Link.noteHeld; split <;> rfl
+
+theorem rcv_store_frame (l : Link) (e : Ev) (h : e.mayStore = false) : (l.step e).rcv.fs.dump = l.rcv.fs.dump := by
+  cases e with
+  | rcvSerialize id p f => simp [Ev.mayStore] at h
+  | rcvChildStep => simp [Ev.mayStore] at h
+  | rcvRestart c => simp [Ev.mayStore] at h
+  | serialize id p f => show (Link.noteHeld _).rcv.fs.dump = _; rw [noteHeld_rcv]
+  | childStep => show (Link.noteHeld _).rcv.fs.dump = _; rw [noteHeld_rcv]
+  | sndInstall d => show (Link.noteHeld _).rcv.fs.dump = _; rw [noteHeld_rcv]
+  | rcvCheck ck => simp only [Link.step, (check_frame l.rcv ck).2.1]
+  | deliver fin =>
+    unfold Link.step
+    cases l.chan with
+    | nil => rfl
+    | cons c rest =>
+      simp only
+      by_cases hd : (l.rcv.setTransmissionData c).2 = true
+      · simp only [hd, if_true]
+        cases fin with
+        | none => exact set_keeps_dump _ _
+        | some a =>
+          cases a
+          · simp only; rw [finish_reject_dump, set_keeps_dump]
+          · simp [Ev.mayStore] at h
+      · simp only [hd]; exact set_keeps_dump _ _
+  | send => rfl
+  | burst b => rfl
+  | sendOther n => rfl
+  | reconnect c => rfl
+  | cancel => rfl
+  | check ck => rfl
+
+/-- a delivery on a link that satisfies the invariant: the stored snapshot stays, or the delivery completed a
+transfer, `finishIncoming(True)` was called, and the stored snapshot is now exactly the completed bytes — a snapshot
+the sender held -/
+theorem deliver_store (l : Link) (fin : Option Bool) (h : Inv l) :
+    (l.step (.deliver fin)).rcv.fs.dump = l.rcv.fs.dump ∨
+    (fin = some true ∧ ∃ d, d ∈ l.held ∧ (l.step (.deliver fin)).rcv.fs.dump = some d ∧
+      (l.step (.deliver fin)).completed = d :: l.completed) := by
+  by_cases hf : fin = some true
+  · subst hf
+    obtain ⟨⟨g, hr, hsc⟩, _, _⟩ := h
+    unfold Link.step
+    cases hchan : l.chan with
+    | nil => left; rfl
+    | cons x rest =>
+      have hlink := hsc.linked
+      rw [hchan] at hlink
+      cases x with
+      | none => left; simp [Ser.setTransmissionData]
+      | some ch =>
+        obtain ⟨D, o, hD, hch, hg, _⟩ := hlink
+        have hpre : l.rcv.holdsPrefix D o := by
+          by_cases ho : o = 0
+          · exact Or.inl ho
+          · have := hg (by omega)
+            subst this
+            exact Or.inr hr.2
+        have hset := set_chunkAt l.rcv l.snd.batch hsc.batch D o hpre
+        simp only at hset
+        rw [← hch] at hset
+        obtain ⟨hret, _, hdump, hcase⟩ := hset
+        by_cases hl : ch.isLast = true
+        · right
+          simp only [hl, if_true] at hcase
+          have hfin := finish_accept_dump _ D hcase.2.2 hcase.1
+          refine ⟨rfl, D, hD, ?_, ?_⟩
+          · simp only [hret, hl, if_true]; exact hfin.1
+          · simp only [hret, hl, if_true, hcase.1]
+        · left
+          simp only [hret, hl]
+          exact hdump
+  · left
+    apply rcv_store_frame
+    cases fin with
+    | none => rfl
+    | some a => cases a <;> simp_all [Ev.mayStore]
 
 end PSO.Serializer
